@@ -45,7 +45,7 @@ class FakeUdp:
         self.bound = addr
 
     def sendto(self, data, addr):
-        if addr in getattr(self, 'unreachable', ()):
+        if addr in getattr(self, 'unreachable', ()) or (addr[0] == '255.255.255.255' and getattr(self.mod, 'no_broadcast_route', False)):
             # the answer can not be sent (a datagram from source port 0, no route back, ...)
             raise OSError(22, 'Invalid argument')
         self.sent.append((data, addr))
@@ -210,6 +210,14 @@ def check_sequence(ctx, case):
     lst, sock, mod = res
     if not lst.is_enabled:
         return
+    if case.get('no_broadcast_route'):
+        # the node announces itself at start-up, but the host has no route for the broadcast (only the loopback interface is
+        # up, ...): sending fails - the requests arriving later are to be answered nevertheless
+        try:
+            lst, sock, mod = make_listener(case['eid'], case['desc'], case['ifaces'], broadcast=True)
+        except Exception:   # noqa
+            return
+        mod.no_broadcast_route = True
     ports = expected_ports(case['ifaces'])
     dgrams = [(d, ('10.0.0.%d' % (i % 250 + 1), 4000 + i)) for i, d in enumerate(case['datagrams'])]
     unreachable = {i for i in case.get('unreachable', []) if isinstance(i, int) and 0 <= i < len(dgrams)}
@@ -229,7 +237,8 @@ def check_sequence(ctx, case):
     marks = mod.marks + [len(sock.sent)]
     for i, (data, addr) in enumerate(dgrams):
         ctx.ev()
-        sub = {'kind': 'sequence', 'eid': case['eid'], 'desc': case['desc'], 'ifaces': case['ifaces'], 'datagrams': case['datagrams'][:i + 1], 'unreachable': case.get('unreachable', [])}
+        sub = {'kind': 'sequence', 'eid': case['eid'], 'desc': case['desc'], 'ifaces': case['ifaces'], 'datagrams': case['datagrams'][:i + 1], 'unreachable': case.get('unreachable', []),
+               'no_broadcast_route': bool(case.get('no_broadcast_route'))}
         if i >= len(mod.marks):
             cause = dgrams[len(mod.marks) - 1][0] if mod.marks else b''
             ctx.finding(f'responder-killed:{type(died).__name__ if died else "stopped"}', dict(sub, datagrams=case['datagrams'][:len(mod.marks)]),
@@ -288,7 +297,7 @@ def sequence_case(draw):
                                  st.text('{}[]":, SECoPdiscover01', max_size=30).map(lambda s: s.encode())), min_size=0, max_size=6))
     unreachable = sorted(draw(st.sets(st.integers(0, max(0, len(dg) - 1)), max_size=2))) if dg and draw(st.integers(0, 3)) == 0 else []
     return {'kind': 'sequence', 'eid': draw(st.sampled_from(['eq', 'node.example.org', 'ä'])), 'desc': draw(st.sampled_from(['', 'a node', 'x' * 600])),
-            'ifaces': ifaces, 'datagrams': [d.hex() for d in dg], 'unreachable': unreachable}
+            'ifaces': ifaces, 'datagrams': [d.hex() for d in dg], 'unreachable': unreachable, 'no_broadcast_route': draw(st.integers(0, 5)) == 0}
 
 
 def run_shard(ctx, shard):
@@ -309,6 +318,8 @@ def run_shard(ctx, shard):
                                'datagrams': [x.hex() for x in pre + [h]]})
             run_case(ctx, {'kind': 'sequence', 'eid': 'eq', 'desc': 'd', 'ifaces': ['tcp://10767', 'tcp://2'],
                            'datagrams': [VALID.hex(), h.hex()], 'unreachable': [0]})
+            run_case(ctx, {'kind': 'sequence', 'eid': 'eq', 'desc': 'd', 'ifaces': ['tcp://10767', 'tcp://2'],
+                           'datagrams': [h.hex(), VALID.hex()], 'no_broadcast_route': True})
         return
     if shard['idx'] % 2:
         drive(identity_case(), lambda case: check_identity(ctx, case), shard['n'], ctx.seed * 1000 + shard['idx'])
